@@ -162,6 +162,14 @@ def model (d : DS) : List String → DS × String
       if mode == "up" || mode == "t0" || mode == "slow" || mode == "down" then outage d mode u pid
       else (d, "bad-op")
     | _, _ => (d, "bad-op")
+  | ["flap", route, u, pid] =>
+    match u.toNat?, pid.toNat? with
+    | some u, some pid =>
+      if !(["mgU2F", "genTOTP", "addUser", "deleteUser"].contains route) || (route == "mgU2F" && !hasU2F pid)
+      then (d, "bad-op") else
+      let d2 := applyOp (applyOp { d with seenU := u :: d.seenU } (.save u pid)) (.sync ⟨false, false⟩ none)
+      (d2, s!"ok flap | {digest d2}")
+    | _, _ => (d, "bad-op")
   | ["stale", mode, u, o, n] =>
     match u.toNat?, o.toNat?, n.toNat? with
     | some u, some o, some n => stale d mode u o n
@@ -227,6 +235,15 @@ def judge : List String → String
       | _ => true
     if unchanged != "unchanged=1" then "viol rows-changed-during-outage"
     else if bad.isEmpty then "ok" else s!"viol {" ".intercalate bad}"
+  | "flap" :: toks =>
+    -- primary lost at the k-th statement of a request: the row is the old one unless the handler
+    -- reported success, never undecodable, and the cache is untouched
+    let bad := toks.filter fun t =>
+      match t.splitOn ":" with
+      | [_, code, row, cacheSame] =>
+        cacheSame != "1" || row == "corrupt" || (code != "ok" && row != "old")
+      | _ => true
+    if bad.isEmpty then "ok" else s!"viol outage-mid-request {" ".intercalate bad}"
   | ["stale", new, primary] =>
     if primary == new then "ok" else s!"viol stale-profile-written-over-primary:{primary}"
   | _ => "bad-op"
